@@ -35,7 +35,34 @@ import (
 // apd.Decimal to other
 
 func BigDecimalFloatToBigFloat(value *apd.Decimal) (*big.Float, error) {
+	if value.Form == apd.Finite && !value.IsZero() && value.Exponent >= 0 && value.Exponent <= maxExactBase10Exponent {
+		// A whole number: every binary float with enough precision holds it exactly.
+		// (A precision derived from the digit count of 1e30 would round it.)
+		return new(big.Float).SetInt(wholeDecimalToBigInt(&value.Coeff, value.Negative, value.Exponent)), nil
+	}
 	return StringToBigFloat(value.Text('g'), int(value.NumDigits()))
+}
+
+// Decimal floats that are whole numbers (exponent >= 0) are converted to binary
+// floats exactly up to this exponent; 10^exponent is computed in full for that.
+const maxExactBase10Exponent = 5000
+
+func wholeDecimalToBigInt(coefficient *big.Int, negative bool, exponent int32) *big.Int {
+	result := big.NewInt(int64(exponent))
+	result.Exp(common.BigInt10, result, nil)
+	result.Mul(result, coefficient)
+	if negative {
+		result.Neg(result)
+	}
+	return result
+}
+
+// Convert a decimal float to a big.Float. Whole numbers are converted exactly.
+func DecimalFloatToBigFloat(value compact_float.DFloat) *big.Float {
+	if !value.IsSpecial() && value.Coefficient != 0 && value.Exponent >= 0 && value.Exponent <= maxExactBase10Exponent {
+		return new(big.Float).SetInt(wholeDecimalToBigInt(big.NewInt(value.Coefficient), false, value.Exponent))
+	}
+	return value.BigFloat()
 }
 
 func BigDecimalFloatToBigInt(value *apd.Decimal, maxBase10Exponent int) (*big.Int, error) {
@@ -64,6 +91,16 @@ func BigDecimalFloatToUint(value *apd.Decimal) (uint64, error) {
 	}
 	if i, err := value.Int64(); err == nil {
 		return uint64(i), nil
+	}
+
+	if value.Form == apd.Finite && value.Exponent >= 0 && value.Exponent <= 20 {
+		// Beyond int64 but possibly within uint64: exact integer arithmetic. (Going
+		// through a binary float with the coefficient's precision rounds 1e19.)
+		whole := wholeDecimalToBigInt(&value.Coeff, false, value.Exponent)
+		if !whole.IsUint64() {
+			return 0, fmt.Errorf("%v is too big to fit into an unsigned integer", value)
+		}
+		return whole.Uint64(), nil
 	}
 
 	bf, err := BigDecimalFloatToBigFloat(value)
